@@ -231,7 +231,7 @@ func TestC15_Address(t *testing.T) {
 			t.Fatalf("DecodeBase58Address(%q)=%v,%v", text, back, err)
 		}
 		// mutated texts
-		class := rapid.SampledFrom([]string{"edit1", "edit2", "version", "checksum", "length", "prefix1", "random"}).Draw(t, "class")
+		class := rapid.SampledFrom([]string{"edit1", "edit2", "version", "checksum", "length", "prefix1", "random", "valid_plus_tail", "valid_cut"}).Draw(t, "class")
 		var s string
 		switch class {
 		case "edit1", "edit2":
@@ -267,6 +267,18 @@ func TestC15_Address(t *testing.T) {
 			n := rapid.SampledFrom([]int{0, 1, 20, 21, 24, 26, 32}).Draw(t, "n")
 			raw := rapid.SliceOfN(rapid.Byte(), n, n).Draw(t, "raw")
 			s = refB58Encode(raw)
+		case "valid_plus_tail", "valid_cut":
+			// the 25 bytes of a correct address (key, version, checksum) followed by more bytes, or cut short:
+			// the text is well-formed base58 and starts / ends like an address, only the length is wrong
+			body := append(append([]byte{}, key[:]...), 0)
+			sum := sha256.Sum256(body)
+			full := append(body, sum[:4]...)
+			if class == "valid_plus_tail" {
+				full = append(full, rapid.SliceOfN(rapid.Byte(), 1, 8).Draw(t, "tail")...)
+			} else {
+				full = full[:rapid.IntRange(20, 24).Draw(t, "keep")]
+			}
+			s = refB58Encode(full)
 		case "prefix1":
 			s = "1" + text
 		default:
